@@ -105,7 +105,7 @@ def one_case(rng, restart_p=0.3, maxsched=90):
 
 def gen_cases(rng, tier):
     n = 70 if tier == "quick" else 2500
-    return [one_case(rng) for _ in range(n)]
+    return [one_case(rng) for _ in range(n)] + directed_cases(rng, 8 if tier == "quick" else 400)
 
 
 def search_cases(rng, tier):
@@ -128,6 +128,94 @@ def search_cases(rng, tier):
     return cases
 
 
+def compare(case, impl, model):
+    if model == "*":
+        return None
+    return None if impl == model else f"impl={impl[:300]!r} model={model[:300]!r}"
+
+
+FIFO_KINDS = ("unbounded", "segmented", "fair", "ring", "bounded")
+
+
+def mailbox_oracle(case, impl):
+    """python oracle for the oracle-only cases (cfg = `nw budget mailbox`): O <= 1, nothing pending, every accepted
+    message handled exactly once, nothing else handled, FIFO per sender for FIFO mailboxes."""
+    import re
+    m = re.search(r" \| R (.*) \| F H=(\S*) O=(\d+) E=\d+ S=\d+ P=(\w+)", impl)
+    if not m:
+        return None
+    results, handled, o, pending = m.group(1), m.group(2), int(m.group(3)), m.group(4)
+    if o > 1:
+        return f"bad C01: {o} handler invocations in progress at once"
+    if pending != "false":
+        return "bad C02: a published message is still pending after every worker went idle (lost wake-up)"
+    progs = [p.split() for p in case.split("|")[1].split(";")]
+    res = [r.split(",") if r else [] for r in results.split(";")]
+    if any(p and p[0] == "r" for p in progs):
+        return None
+    acc = []
+    per = []
+    for p, r in zip(progs, res):
+        mine = []
+        for op, rr in zip(p, r):
+            if op.startswith("t") and "-" in op:
+                a, b = map(int, op[1:].split("-"))
+                n = int(rr[2:]) if rr.startswith("ok") else 0
+                if n != b - a + 1:
+                    return None  # bounded mailbox rejected some: which ones is not reported; skip exact accounting
+                mine += list(range(a, b + 1))
+            elif op.startswith("t") and rr == "ok":
+                mine.append(int(op[1:]))
+        per.append(mine)
+        acc += mine
+    h = [int(x) for x in handled.split(",") if x and x != "ps"]
+    if len(set(h)) != len(h):
+        return "bad C02: a message was handled twice"
+    if set(acc) - set(h):
+        return f"bad C02: accepted messages never handled: {sorted(set(acc) - set(h))[:5]}"
+    if set(h) - set(acc):
+        return "bad C02: a message was handled that was not accepted"
+    kind = case.split("|")[0].split()[2]
+    if kind.startswith(FIFO_KINDS):
+        pos = {x: i for i, x in enumerate(h)}
+        for mine in per:
+            if any(pos[a] > pos[b] for a, b in zip(mine, mine[1:])):
+                return "bad C03: one sender's messages were handled out of order"
+    return None
+
+
+def directed_cases(rng, n):
+    """boundary-crossing schedules on the other mailbox kinds (oracle-only): a first sender fills the mailbox up to
+    a boundary m, a worker drains it in one turn and parks right before its reset (having seen Dequeue = nil),
+    a second sender tells one more message, then everything completes. Macro steps end before dispatch-state
+    operations, so the mailbox needs no instrumentation here."""
+    cases = []
+    kinds = [("segmented", [255, 256, 257, 512]), ("fair", [1, 2]), ("ring8", [1, 6]), ("unbounded", [1, 2]),
+             ("uprio", [1, 3]), ("usprio", [1, 3]), ("bounded8", [1, 6])]
+    # capacities always exceed the number of messages: a full bounded mailbox dead-letters the message although
+    # Tell returns nil (that is C18's subject, not a loss)
+
+    def mk(kind, m, delta, a, b, c, d):
+        budget = m + 50
+        progs = [f"t1-{m}", f"t{m+1}", f"t{m+2}", "w0 w0 w0", "w1 w1 w1"]
+        # thread ids: 0 first sender, 1 second, 2 third, 3 worker0, 4 worker1
+        sched = ["0*"] * 8
+        sched += ["3*"] * (2 + m + delta)     # take, CAS, then one macro step per handled message
+        sched += ["1*"] * a + ["3*"] * b + ["2*"] * c + ["4*"] * d
+        return f"2 {budget} {kind} | " + " ; ".join(progs) + " | " + " ".join(sched)
+
+    # systematic core: for every kind and boundary, park the worker just before / at / after its reset
+    for kind, ms in kinds:
+        for m in ms:
+            for delta in (-1, 0, 1):
+                cases.append(mk(kind, m, delta, 6, 2, 6, 4))
+    for _ in range(n):
+        kind, ms = rng.choice(kinds)
+        cases.append(mk(kind, rng.choice(ms), rng.choice([-1, 0, 0, 1]), rng.choice([0, 2, 6]), rng.choice([0, 1, 2]),
+                        rng.choice([0, 3, 6]), rng.choice([0, 2, 4])))
+    return cases
+
+
 def is_trivial(case, impl):
     return not impl.startswith("T ")
 
@@ -143,6 +231,8 @@ def oracle(case, impl, judge):
         return "a logical thread blocked outside the instrumented points: " + impl[-200:]
     if impl.endswith("unfinished"):
         return None  # step cap reached (e.g. a restart waiting for an actor nobody drains): inconclusive, compared with the model only
+    if len(case.split("|")[0].split()) == 3:
+        return mailbox_oracle(case, impl)
     if judge is not None:
         return None if judge.startswith("ok") else judge
     import re
